@@ -480,7 +480,7 @@ def generate(repo):
     import extract_contract
 
     errors = []
-    out = ["", "import IbicusModel.Model.Config", "", "namespace Gen.Config", "open Model.Config", ""]
+    out = ["", "import IbicusModel.Model.Config", "", "set_option linter.unusedVariables false", "", "namespace Gen.Config", "open Model.Config", ""]
 
     def section(label, fn):
         try:
